@@ -48,7 +48,9 @@ type Transaction struct {
 func NewTransaction(config *TransactionConfig) *Transaction {
 	var resultCh chan TransactionResult
 	if !config.IgnoreResult {
-		resultCh = make(chan TransactionResult)
+		// Buffered: the one result a transaction gets must never block its writer (the
+		// inbound path or a timer), even if the caller has already given up on it.
+		resultCh = make(chan TransactionResult, 1)
 	}
 
 	return &Transaction{
